@@ -24,6 +24,8 @@ func NewTransport(tlscfg *tls.Config) *http.Transport {
 	}
 }
 
-func SetConfig(cfg *config.Config) {
-	cfg = cfg
+func SetConfig(c *config.Config) {
+	// the parameter used to be called cfg as well and shadowed the package
+	// variable, so the assignment was a no-op
+	cfg = c
 }
